@@ -197,7 +197,7 @@ class HCreateSolution(Handler):
                         M.bucket('C05/solvent_holds_solute/concentration_of_added_solute_only')
                         ok = True
                 if not ok:
-                    M.violate(['C05'], 'SOLN', f'C05:concentration_not_met:{num}/{den}:{R.kind(s)}:{skind}',
+                    M.violate(['C05', 'C14'], 'SOLN', f'C05:concentration_not_met:{num}/{den}:{R.kind(s)}:{skind}',
                               {'concentration': cstr, 'solute': s.name, 'target': cval, 'unit': f'{num}/{den}',
                                'got': got, 'rel_tol': rel_tol, 'kwargs': kw, 'solvent': H1._short(solvent),
                                'result': F.snap_contents(res)})
